@@ -7,7 +7,8 @@ from props import c09_extract
 
 PROP = 'C09'
 TITLE = 'Name representations (URI, component list, wire) are mutually consistent'
-LEAN_TARGETS = ['NdnProofs.Props.C09', 'NdnProofs.Props.C09Tables', 'NdnProofs.Props.C09ToStr']
+LEAN_TARGETS = ['NdnProofs.Props.C09', 'NdnProofs.Props.C09Tables', 'NdnProofs.Props.C09ToStr',
+                'NdnProofs.Props.ComponentGen', 'NdnProofs.Props.TlvVarGen', 'NdnGen.Component', 'NdnGen.TlvVar']
 THEOREMS = [
     'Ndn.C09.decode_encode_name', 'Ndn.C09.normalize_wire',
     'Ndn.C09.isPrefix_iff', 'Ndn.C09.isPrefix_iff_componentwise',
@@ -24,6 +25,13 @@ THEOREMS = [
     'Ndn.C09.shorthand_lookup_inverse', 'Ndn.C09.shorthand_number_table', 'Ndn.C09.digest_tables', 'Ndn.C09.toStr_number_guard',
     'Ndn.C09.escaping_table', 'Ndn.C09.empty_component_literals', 'Ndn.C09.type_range_probes', 'Ndn.C09.tlNumSize_table',
     'Ndn.C09.packUint_table', 'Ndn.C09.writeTlNum_table', 'Ndn.C09.parseTlNum_table', 'Ndn.C09.int_digit_limit',
+    # Component.py / tlv_var.py helpers TRANSLATED from their source text on every run (harness/py2lean.py ->
+    # lean/NdnGen/Component.lean, TlvVar.lean) = the model functions (Ndn.Comp.*, Ndn.tlNumSize ...), for all inputs
+    'Ndn.ComponentGen.all_translated', 'Ndn.ComponentGen.get_type_eq', 'Ndn.ComponentGen.get_value_eq',
+    'Ndn.ComponentGen.to_number_eq', 'Ndn.ComponentGen.from_bytes_eq', 'Ndn.ComponentGen.from_bytes_nonpos',
+    'Ndn.ComponentGen.from_number_eq', 'Ndn.ComponentGen.from_typed_number_eq',
+    'Ndn.TlvVarGen.all_translated', 'Ndn.TlvVarGen.get_tl_num_size_eq', 'Ndn.TlvVarGen.write_tl_num_eq',
+    'Ndn.TlvVarGen.pack_uint_bytes_eq', 'Ndn.TlvVarGen.parse_tl_num_eq',
 ]
 PARTIAL = {}
 TRUSTED = [
@@ -31,6 +39,12 @@ TRUSTED = [
     'C09: int(s) / int(s,16) / bytearray.fromhex are modelled on strings over Component.CHARSET only (the code rejects any other character first); the CPython 4300-digit limit of int() is modelled with its default value',
     'C09: component values and names shorter than 2^64 bytes (struct.pack would raise otherwise); Component.from_bytes is modelled for typ >= 0',
     'C09: Name.decode is modelled as the code is (a component overrunning the Name Length is accepted - finding F3 of property C07); on such inputs the correspondence accepts the modelled answer or a rejection',
+    'C09 (Component.py, tlv_var.py byte-level helpers): get_type, get_value, to_number, from_bytes, from_number, from_segment / '
+    'byte_offset / version / timestamp / sequence_num and the tlv_var.py functions they call are translated from the source '
+    'text by harness/py2lean.py (a compositional translator for a delimited subset of Python; anything outside it is '
+    'reported as not translated) and proved equal to the model functions for all inputs; trusted there: the translator, '
+    'lean/NdnModel/PySem.lean (the reading of CPython ints, struct, indexing, slicing, bytearray(n), slice assignment it maps '
+    'to), module-level constants not rebound from outside the module, arguments of the annotated types',
     'C09: lean/NdnGen/C09.lean is regenerated on every run by harness/props/c09_extract.py from Component.py, Name.py and tlv_var.py (live constants of the imported modules, ast shapes, live probes of the range checks and of the TL-number / pack_uint_bytes ladders at the integer constants of their source); the name model READS the character set and the two shorthand tables from it, every other literal of the model is pinned to it by the *_table theorems (closed by evaluation). Trusted: the extractor (an unrecognised shape is emitted as false/unknown and fails tables_recognised), and that a step function is constant between the probed constants of its source',
 ]
 RULE = ('names of 0..8 components, types from {1,2,8,32,50,52,54,56,58,252,253,65535,random 1..65535}, value bytes weighted to '
@@ -352,7 +366,10 @@ def _sized_name(rng, total, ncomp):
 
 
 def extract(repo):
-    """lean/NdnGen/C09.lean: CHARSET, TYPE_* constants, shorthand tables, escaping rule, TL-number ladders"""
+    """lean/NdnGen/C09.lean: CHARSET, TYPE_* constants, shorthand tables, escaping rule, TL-number ladders; and
+    lean/NdnGen/Component.lean, TlvVar.lean: the byte-level helpers translated from their source text"""
+    import py2lean
+    py2lean.write_generated(repo)
     return c09_extract.generate(repo)
 
 
